@@ -18,5 +18,6 @@ mcSetup == << [op |-> "CreateTopic", name |-> "t1"], [op |-> "CreateTopic", name
               [op |-> "CreateSub", c |-> C3] >>
 mcMsgKinds == { [key |-> "", attrs |-> <<>>], [key |-> "", attrs |-> [a |-> "x"]] }
 mcPrefixPairs == {<<"x", "">>, <<"x", "x">>}
+mcWeights == [op \in {} |-> 1]
 mcOps == {"Publish", "Pull", "Ack", "ModAck", "Nack", "DLSweep", "DeleteSub", "Tick"}
 =============================================================================
